@@ -25,5 +25,7 @@ import RdfModel.Props.C02DocNest
 #print axioms RdfModel.C02.NestExample.cfg_ok
 #print axioms RdfModel.C02.nested_doc_roundtrip_real
 #print axioms RdfModel.C02.iso_trans
-#print axioms RdfModel.C02.buffered_resources_roundtrip_partial
+#print axioms RdfModel.C02.buffered_resources_roundtrip
 #print axioms RdfModel.C02.NestExample.rs_ok
+#print axioms RdfModel.C02.resources_doc_roundtrip_holds
+#print axioms RdfModel.C02.nested_doc_roundtrip
